@@ -885,6 +885,8 @@ def longitude_range_rule(repo, rep):
             n_cfg += 1
             ip = Interp({'zone': zr}, attrs=dict((('prj', k), (v, v)) for k, v in prj[pname].items() if isinstance(v, (int, float))),
                         tests={'prj == isg': pname == 'isg', 'prj != isg': pname != 'isg'})
+            # helpers of the same module are looked into (a central-meridian function shared by both conversions)
+            ip.funcs = dict((q_, g_.node) for q_, g_ in f.module.functions.items() if g_ is not f)
             # the validation at the top of the function does not matter to the range; start from the parameters
             body = [st for st in f.node.body if not (isinstance(st, ast.Assign) and len(st.targets) == 1 and isinstance(st.targets[0], ast.Name) and st.targets[0].id == 'zone')]
             ip.run(body, dict(ip.env))
